@@ -3,7 +3,7 @@ open Atomica
 
 /-- handlers: first token selects the model module; the rest are its arguments -/
 def handlers : List (String × (List String → Option String)) :=
-  [ ("grid", Grid.handle),
+  [ ("grid", Grid.handle), ("gridops", Grid.handleOps),
     ("estep", Engine.handleStep), ("eflush", Engine.handleFlush), ("ewf", Engine.handleWf),
     ("estepref", Engine.handleStepRef), ("eflushref", Engine.handleFlushRef),
     ("interp-linear", Series.handleLinear), ("interp-previous", Series.handlePrevious), ("series-insert", Series.handleInsert),
